@@ -15,7 +15,7 @@ func init() {
 		ID:        "C14",
 		Roots:     []string{"overlord/snapstate", "overlord/ifacestate", "overlord/devicestate", "daemon"},
 		Technique: "interprocedural guarded-task-creation analysis: every NewTask site of a snap-mutating kind must be cut (SSA CFG) from its function's entry by a successful conflict check, or every call chain leading to it must be, up to the exported entry points; guarded-sink and loop-latch rules on the conflict checker itself",
-		Explanation: "Structural necessary conditions for 'no two in-progress changes operate on the same snap': (R1) every creation of a task that links, unlinks, mounts, discards, copies data of, or otherwise mutates a snap (constant kind registered by the snap manager with a link/unlink/mount/discard/data/alias/component effect) is preceded on every path - in its own function or in every caller chain up to an exported entry point - by a successful CheckChangeConflict*/checkChangeConflictIgnoringOneChange call (ifacestate: checkAutoconnect/Disconnect/HotplugDisconnectConflicts; also accepted: a first loop that checks every element of a collection and a second loop over the same collection that creates the tasks); entry points that create such tasks without a check are reported unless listed with a reason (download-only, running inside an already exclusive change); (R2) checkChangeConflictExclusiveKinds rejects, for each exclusive change kind found in progress, unless it is the ignored change, and the creators of exclusive changes call the exclusive check; (R3) isIrrelevantChange says true only for nil, ready, ignored or the two reviewed harmless kinds; (R4) CheckChangeConflictMany advances over the tasks of the state only across irrelevant changes or tasks whose affected snaps do not intersect the requested ones, and reports a conflict otherwise; (R5) checkChangeConflictIgnoringOneChange answers nil for a caller-supplied snapshot only across reflect.DeepEqual(snapst, current); (R6) the affected-snaps registry keeps its registrations (hook-setup, service-action, snapshot-setup, quota-control, connect, disconnect, ...).",
+		Explanation: "Structural necessary conditions for 'no two in-progress changes operate on the same snap': (R1) every creation of a task that links, unlinks, mounts, discards, copies data of, or otherwise mutates a snap (constant kind registered by the snap manager with a link/unlink/mount/discard/data/alias/component effect) is preceded on every path - in its own function or in every caller chain up to an exported entry point - by a successful CheckChangeConflict*/checkChangeConflictIgnoringOneChange call (ifacestate: checkAutoconnect/Disconnect/HotplugDisconnectConflicts; also accepted: a first loop that checks every element of a collection and a second loop over the same collection that creates the tasks); entry points that create such tasks without a check are reported unless listed with a reason (download-only, running inside an already exclusive change); (R2) checkChangeConflictExclusiveKinds rejects, for each exclusive change kind found in progress, unless it is the ignored change, and the creators of exclusive changes call the exclusive check; (R3) isIrrelevantChange says true only for nil, ready, ignored or the two reviewed harmless kinds; (R4) CheckChangeConflictMany advances over the tasks of the state only across irrelevant changes or tasks whose affected snaps do not intersect the requested ones, and reports a conflict otherwise; (R5) checkChangeConflictIgnoringOneChange answers nil for a caller-supplied snapshot only across reflect.DeepEqual(snapst, current); (R6) the affected-snaps registry keeps its registrations (hook-setup, service-action, snapshot-setup, quota-control, connect, disconnect, ...); (R7) the snap names handed to the conflict checks are instance names, never SnapName() results.",
 		NotDecided: "that SnapsAffectedByTask names every snap a task really touches; conflicts between changes created in the same state lock window by different managers; remodel's internal sequencing.",
 		Run:        runC14,
 	})
@@ -370,6 +370,52 @@ func runC14(c *Ctx) {
 			}
 		}
 		c.Check(okD, "overlord/snapstate.checkChangeConflictIgnoringOneChange#compared-with-current", dc.Pos(), "compared with Get(st, instanceName)", "the snapshot is not compared with the state's current SnapState of the same snap")
+	}
+
+	// ---- R7
+	c.Rule("C14-R7", "W", "conflict checks are keyed by instance names: no snap name handed to CheckChangeConflict*/check*Conflicts comes from SnapName() (which drops the instance key of a parallel install)", 10)
+	snapNameObjs := map[string]bool{"SnapName": true}
+	nNames := 0
+	for _, fn := range funcs {
+		for _, cc := range CallSites(fn, checks...) {
+			var names []ssa.Value
+			for _, a := range cc.Common().Args {
+				if b, ok := a.Type().Underlying().(*types.Basic); ok && b.Kind() == types.String {
+					names = append(names, a)
+				}
+				if _, ok := a.Type().Underlying().(*types.Slice); ok {
+					names = append(names, VarargElems(a)...)
+				}
+			}
+			for _, nv := range names {
+				nNames++
+				bad := false
+				seen := map[ssa.Value]bool{}
+				var rec func(v ssa.Value, d int)
+				rec = func(v ssa.Value, d int) {
+					if v == nil || d > 8 || seen[v] {
+						return
+					}
+					seen[v] = true
+					v = Strip(v)
+					switch x := v.(type) {
+					case *ssa.Call:
+						if co := CalleeOf(x); co != nil && snapNameObjs[co.Name()] {
+							bad = true
+						}
+					case *ssa.Phi:
+						for _, e := range x.Edges {
+							rec(e, d+1)
+						}
+					case *ssa.Extract:
+						rec(x.Tuple, d+1)
+					}
+				}
+				rec(nv, 0)
+				c.touch(fn)
+				c.Check(!bad, fmt.Sprintf("%s#conflict-check-name#%d", SSAFuncName(fn), nNames), cc.Pos(), "instance name", "the snap name handed to the conflict check in "+SSAFuncName(fn)+" comes from SnapName(): for a parallel-installed instance (name_key) the check looks at the wrong snap and misses the change in progress on the instance")
+			}
+		}
 	}
 
 	// ---- R6
